@@ -1,108 +1,339 @@
 (* Model of the decisions of QuicConnection.receive_datagram (src/aioquic/quic/connection.py) AROUND decryption, for one
-   packet whose header has been parsed and routed to this connection: which crypto pair and packet space by packet type,
-   KeyUnavailableError -> drop (a client without handshake keys re-arms its Initial once), CryptoError -> drop, reserved bits
-   checked AFTER successful decryption -> close(PROTOCOL_VIOLATION), expected packet number raised, state / idle timer / largest
-   received / ack queue updated only after that.  1-RTT (and 0-RTT, which shares its pair here) decryption is
-   KeyPhase.pair_decrypt; Initial and Handshake have one fixed context (no key phase): the packet opens iff it is authentic.
-   Frame processing is an abstract function of the payload.  Model only: it is NOT run against the code (the code-level
-   counterpart of the theorem is the state-digest oracle of harness/props/c02.py).  No proofs in this file. *)
-From AQ Require Import lib.Base lib.Tok model.KeyPhase.
+   packet whose header has been parsed and routed to this connection (header parsing / routing: C05's ConnDgram.v), statement
+   by statement in the order of gen/C02Recv.v RECV_SKELETON (read from the source on every check; lemma
+   packet_recv_as_modelled):
+
+     gate        `if self._state in END_STATES or self._close_pending: return`
+     select      crypto pair by epoch (`_cryptos_initial[version]` / `_cryptos[epoch]`: 0-RTT has its OWN pair), packet space
+                 by epoch (0-RTT shares the 1-RTT space)
+     decrypt     crypto.decrypt_packet(.., space.expected_packet_number): KeyUnavailableError -> drop (a client re-arms its
+                 first flight once for a Handshake / 1-RTT packet), CryptoError -> drop.  The truncated packet number is
+                 expanded against expected_packet_number (PacketNumber.decode_packet_number); an authentic packet whose number
+                 does not expand to the number it was sealed with has the wrong nonce and fails like any other (ideal AEAD).
+                 1-RTT decryption is KeyPhase.pair_decrypt (a remote key update is applied by it).
+     reserved    bits 0x18 / 0x0C checked AFTER decryption -> close(PROTOCOL_VIOLATION); return
+     expected    `if packet_number > space.expected_packet_number: space.expected_packet_number = packet_number + 1`
+     discard     server, Handshake packet: _discard_epoch(INITIAL)
+     latch       `if self._peer_cid.sequence_number is None`: peer CID := header.source_cid
+     connected   FIRSTFLIGHT -> CONNECTED, _remote_initial_source_connection_id := header.source_cid
+     spin        1-RTT and packet_number > _spin_highest_pn: spin bit (inverted by a client), _spin_highest_pn
+     payload     _payload_received: an ABSTRACT function of the payload giving (ack-eliciting, error code of a
+                 QuicConnectionError / of a close it caused, effects on the key state: handshake / 1-RTT keys installed,
+                 Handshake epoch discarded at confirmation); close on error
+     gate        again
+     idle        _close_at = now + _idle_timeout()
+     record      `if not space.discarded` (read AFTER the payload): largest_received_packet / _time, ack_queue.add (a RangeSet),
+                 ack_at, the MAX_ACK_RANGES rule
+   and, outside receive_datagram, [on_handshake_sent]: a client discards the Initial epoch when it has sent a Handshake packet.
+
+   Not modelled: migration / network paths (bytes_received, validation, promotion), the server's `_close_at` / `_initialize`
+   on its very first datagram (both before authentication, see docs/C02.md "False alarms"), the congestion / loss side of
+   _loss.discard_space, qlog.
+   Tie: exec_packetrecv below is run against real connections on every check (harness/props/c02_recv.py).
+   No proofs in this file. *)
+From AQ Require Import lib.Base lib.Tok model.KeyPhase model.PacketNumber model.RangeSet gen.C02Recv.
 
 Inductive epoch := EInitial | EZeroRtt | EHandshake | EOneRtt.
 Definition epoch_eqb (a b : epoch) : bool :=
   match a, b with EInitial, EInitial | EZeroRtt, EZeroRtt | EHandshake, EHandshake | EOneRtt, EOneRtt => true | _, _ => false end.
 
 (* QuicPacketSpace, the fields receive_datagram touches *)
-Record space := mkSp { sp_expected : Z; sp_largest : Z; sp_largest_time : Z; sp_ackq : list Z; sp_ack_at : option Z; sp_discarded : bool }.
+Record space := mkSp { sp_expected : Z; sp_largest : Z; sp_largest_time : Z; sp_ackq : rs; sp_ack_at : option Z; sp_discarded : bool }.
 
 Record conn := mkC {
   c_is_client : bool;
-  c_keys_initial : bool; c_keys_handshake : bool; c_keys_onertt : bool;     (* recv.aead is not None *)
+  c_keys_initial : bool; c_keys_zerortt : bool; c_keys_handshake : bool; c_keys_onertt : bool;   (* recv.aead is not None *)
   c_pair : kpair;                                                           (* _cryptos[ONE_RTT] key-phase state *)
   c_sp_initial : space; c_sp_handshake : space; c_sp_onertt : space;
   c_crypto_retransmitted : bool; c_rescheduled : Z;                         (* _loss.reschedule_data calls *)
   c_connected : bool;                                                       (* state left FIRSTFLIGHT *)
-  c_close : option Z;                                                       (* close(error_code) pending *)
+  c_close : option Z;                                                       (* close(error_code) pending / END state *)
   c_close_at : Z;
-  c_delivered : list (list Z)                                               (* payloads handed to _payload_received *)
+  c_delivered : list (list Z);                                              (* payloads handed to _payload_received *)
+  c_peer_latched : bool; c_peer_cid : list Z;                               (* _peer_cid.sequence_number is not None; .cid *)
+  c_remote_iscid : list Z;                                                  (* _remote_initial_source_connection_id *)
+  c_spin : bool; c_spin_highest : Z                                         (* _spin_bit, _spin_highest_pn *)
 }.
 
-(* a received packet after header parsing: packet type (as epoch), the abstract protected content, and what decryption
-   yields IF it opens: first byte of the plain header, packet number, payload *)
-Record rpacket := mkR { r_epoch : epoch; r_q : kpkt; r_first : Z; r_pn : Z; r_payload : list Z }.
+(* a received packet after header parsing: packet type (as epoch), the abstract protected content, and what the SENDER put in:
+   first byte of the plain header, the packet number it sealed with, the length of the truncated encoding (bytes), the
+   source CID of the (long) header, payload *)
+Record rpacket := mkR { r_epoch : epoch; r_q : kpkt; r_first : Z; r_pn : Z; r_pnlen : Z; r_scid : list Z; r_payload : list Z }.
 
 Definition space_of (c : conn) (e : epoch) : space :=
   match e with EInitial => c_sp_initial c | EHandshake => c_sp_handshake c | _ => c_sp_onertt c end.
 Definition has_keys (c : conn) (e : epoch) : bool :=
-  match e with EInitial => c_keys_initial c | EHandshake => c_keys_handshake c | _ => c_keys_onertt c end.
+  match e with EInitial => c_keys_initial c | EZeroRtt => c_keys_zerortt c | EHandshake => c_keys_handshake c | EOneRtt => c_keys_onertt c end.
+
+(* ---- field updates (each the record with one group of fields replaced) ---- *)
+Definition set_keys (c : conn) (e : epoch) (b : bool) : conn :=
+  mkC (c_is_client c)
+    (if epoch_eqb e EInitial then b else c_keys_initial c) (if epoch_eqb e EZeroRtt then b else c_keys_zerortt c)
+    (if epoch_eqb e EHandshake then b else c_keys_handshake c) (if epoch_eqb e EOneRtt then b else c_keys_onertt c)
+    (c_pair c) (c_sp_initial c) (c_sp_handshake c) (c_sp_onertt c) (c_crypto_retransmitted c) (c_rescheduled c) (c_connected c)
+    (c_close c) (c_close_at c) (c_delivered c) (c_peer_latched c) (c_peer_cid c) (c_remote_iscid c) (c_spin c) (c_spin_highest c).
+Definition set_pair (c : conn) (p : kpair) : conn :=
+  mkC (c_is_client c) (c_keys_initial c) (c_keys_zerortt c) (c_keys_handshake c) (c_keys_onertt c)
+    p (c_sp_initial c) (c_sp_handshake c) (c_sp_onertt c) (c_crypto_retransmitted c) (c_rescheduled c) (c_connected c)
+    (c_close c) (c_close_at c) (c_delivered c) (c_peer_latched c) (c_peer_cid c) (c_remote_iscid c) (c_spin c) (c_spin_highest c).
+Definition set_space (c : conn) (e : epoch) (s : space) : conn :=
+  mkC (c_is_client c) (c_keys_initial c) (c_keys_zerortt c) (c_keys_handshake c) (c_keys_onertt c) (c_pair c)
+    (match e with EInitial => s | _ => c_sp_initial c end) (match e with EHandshake => s | _ => c_sp_handshake c end)
+    (match e with EInitial | EHandshake => c_sp_onertt c | _ => s end)
+    (c_crypto_retransmitted c) (c_rescheduled c) (c_connected c)
+    (c_close c) (c_close_at c) (c_delivered c) (c_peer_latched c) (c_peer_cid c) (c_remote_iscid c) (c_spin c) (c_spin_highest c).
+(* self._loss.reschedule_data(now=now); self._crypto_retransmitted = True *)
+Definition set_retransmitted (c : conn) : conn :=
+  mkC (c_is_client c) (c_keys_initial c) (c_keys_zerortt c) (c_keys_handshake c) (c_keys_onertt c)
+    (c_pair c) (c_sp_initial c) (c_sp_handshake c) (c_sp_onertt c) true (c_rescheduled c + 1) (c_connected c)
+    (c_close c) (c_close_at c) (c_delivered c) (c_peer_latched c) (c_peer_cid c) (c_remote_iscid c) (c_spin c) (c_spin_highest c).
+(* FIRSTFLIGHT: _remote_initial_source_connection_id = header.source_cid; _set_state(CONNECTED) *)
+Definition set_connected (c : conn) (scid : list Z) : conn :=
+  mkC (c_is_client c) (c_keys_initial c) (c_keys_zerortt c) (c_keys_handshake c) (c_keys_onertt c)
+    (c_pair c) (c_sp_initial c) (c_sp_handshake c) (c_sp_onertt c) (c_crypto_retransmitted c) (c_rescheduled c) true
+    (c_close c) (c_close_at c) (c_delivered c) (c_peer_latched c) (c_peer_cid c) scid (c_spin c) (c_spin_highest c).
+(* close(): `if self._close_event is None and self._state not in END_STATES` -- the first close wins *)
+Definition set_close (c : conn) (k : Z) : conn :=
+  mkC (c_is_client c) (c_keys_initial c) (c_keys_zerortt c) (c_keys_handshake c) (c_keys_onertt c)
+    (c_pair c) (c_sp_initial c) (c_sp_handshake c) (c_sp_onertt c) (c_crypto_retransmitted c) (c_rescheduled c) (c_connected c)
+    (match c_close c with Some k0 => Some k0 | None => Some k end)
+    (c_close_at c) (c_delivered c) (c_peer_latched c) (c_peer_cid c) (c_remote_iscid c) (c_spin c) (c_spin_highest c).
+Definition set_close_at (c : conn) (t : Z) : conn :=
+  mkC (c_is_client c) (c_keys_initial c) (c_keys_zerortt c) (c_keys_handshake c) (c_keys_onertt c)
+    (c_pair c) (c_sp_initial c) (c_sp_handshake c) (c_sp_onertt c) (c_crypto_retransmitted c) (c_rescheduled c) (c_connected c)
+    (c_close c) t (c_delivered c) (c_peer_latched c) (c_peer_cid c) (c_remote_iscid c) (c_spin c) (c_spin_highest c).
+Definition deliver (c : conn) (p : list Z) : conn :=
+  mkC (c_is_client c) (c_keys_initial c) (c_keys_zerortt c) (c_keys_handshake c) (c_keys_onertt c)
+    (c_pair c) (c_sp_initial c) (c_sp_handshake c) (c_sp_onertt c) (c_crypto_retransmitted c) (c_rescheduled c) (c_connected c)
+    (c_close c) (c_close_at c) (c_delivered c ++ [p]) (c_peer_latched c) (c_peer_cid c) (c_remote_iscid c) (c_spin c) (c_spin_highest c).
+(* self._peer_cid.cid = header.source_cid; self._peer_cid.sequence_number = 0 *)
+Definition latch_peer (c : conn) (scid : list Z) : conn :=
+  mkC (c_is_client c) (c_keys_initial c) (c_keys_zerortt c) (c_keys_handshake c) (c_keys_onertt c)
+    (c_pair c) (c_sp_initial c) (c_sp_handshake c) (c_sp_onertt c) (c_crypto_retransmitted c) (c_rescheduled c) (c_connected c)
+    (c_close c) (c_close_at c) (c_delivered c) true scid (c_remote_iscid c) (c_spin c) (c_spin_highest c).
+Definition set_spin (c : conn) (b : bool) (pn : Z) : conn :=
+  mkC (c_is_client c) (c_keys_initial c) (c_keys_zerortt c) (c_keys_handshake c) (c_keys_onertt c)
+    (c_pair c) (c_sp_initial c) (c_sp_handshake c) (c_sp_onertt c) (c_crypto_retransmitted c) (c_rescheduled c) (c_connected c)
+    (c_close c) (c_close_at c) (c_delivered c) (c_peer_latched c) (c_peer_cid c) (c_remote_iscid c) b pn.
+
+(* _loss.discard_space(space): `space.ack_at = None` (sent packets, loss timer: not modelled); then space.discarded = True *)
+Definition sp_set_discarded (s : space) : space :=
+  mkSp (sp_expected s) (sp_largest s) (sp_largest_time s) (sp_ackq s) None true.
+
+(* _discard_epoch: `if not self._spaces[epoch].discarded:` teardown of the epoch's pair (for INITIAL: every Initial pair),
+   _loss.discard_space (its `space.ack_at = None`: DISCARD_SPACE_CLEARS_ACK_AT), discarded = True.  Only called for INITIAL and HANDSHAKE while the connection lives. *)
+Definition discard_epoch (c : conn) (e : epoch) : conn :=
+  if sp_discarded (space_of c e) then c
+  else set_space (set_keys c e false) e (sp_set_discarded (space_of c e)).
+
+(* datagrams_to_send: `if sent_handshake and self._is_client: self._discard_epoch(tls.Epoch.INITIAL)` *)
+Definition on_handshake_sent (c : conn) : conn := if c_is_client c then discard_epoch c EInitial else c.
 
 Inductive dres := KeyUnavailable | CryptoErr | Opened (p' : kpair).
+
+(* the packet number decrypt_packet computes: decode_packet_number(truncated, pn_length * 8, expected) *)
+Definition decoded_pn (c : conn) (r : rpacket) : Z :=
+  let bits := 8 * r_pnlen r in
+  decode_packet_number (r_pn r mod Z.shiftl 1 bits) bits (sp_expected (space_of c (r_epoch r))).
 
 (* crypto.decrypt_packet(...) of the pair selected by epoch *)
 Definition decrypt (c : conn) (r : rpacket) : dres :=
   if negb (has_keys c (r_epoch r)) then KeyUnavailable
+  else if negb (decoded_pn c r =? r_pn r) then CryptoErr
   else match r_epoch r with
-       | EInitial | EHandshake => match q_auth (r_q r) with Some _ => Opened (c_pair c) | None => CryptoErr end
-       | _ => match pair_decrypt (c_pair c) (r_q r) with (p', Accepted _) => Opened p' | (_, Rejected) => CryptoErr end
+       | EOneRtt => match pair_decrypt (c_pair c) (r_q r) with (p', Accepted _) => Opened p' | (_, Rejected) => CryptoErr end
+       | _ => match q_auth (r_q r) with Some _ => Opened (c_pair c) | None => CryptoErr end
        end.
 
-Definition PROTOCOL_VIOLATION : Z := 10.
+(* effects of the payload on the key state *)
+Inductive pfx := FxDiscardHandshake | FxKeysHandshake | FxKeysOneRtt.
+Record fres := mkF { f_elic : bool; f_err : option Z; f_fx : list pfx }.
 
-Definition set_space (c : conn) (e : epoch) (s : space) : conn :=
-  match e with
-  | EInitial => mkC (c_is_client c) (c_keys_initial c) (c_keys_handshake c) (c_keys_onertt c) (c_pair c) s (c_sp_handshake c) (c_sp_onertt c)
-                  (c_crypto_retransmitted c) (c_rescheduled c) (c_connected c) (c_close c) (c_close_at c) (c_delivered c)
-  | EHandshake => mkC (c_is_client c) (c_keys_initial c) (c_keys_handshake c) (c_keys_onertt c) (c_pair c) (c_sp_initial c) s (c_sp_onertt c)
-                  (c_crypto_retransmitted c) (c_rescheduled c) (c_connected c) (c_close c) (c_close_at c) (c_delivered c)
-  | _ => mkC (c_is_client c) (c_keys_initial c) (c_keys_handshake c) (c_keys_onertt c) (c_pair c) (c_sp_initial c) (c_sp_handshake c) s
-                  (c_crypto_retransmitted c) (c_rescheduled c) (c_connected c) (c_close c) (c_close_at c) (c_delivered c)
+Definition apply_fx (c : conn) (f : pfx) : conn :=
+  match f with
+  | FxDiscardHandshake => discard_epoch c EHandshake
+  | FxKeysHandshake => set_keys c EHandshake true
+  | FxKeysOneRtt => set_pair (set_keys c EOneRtt true) pair_init
   end.
 
+(* protocol constants (RFC 9000 17.2 / 17.3.1 / 20.1) are LITERALS here, so that the tie compares the code with them; the values read
+   from the source (gen/C02Recv.v) are proved equal to them in packet_recv_as_modelled.  MAX_ACK_RANGES and ACK_DELAY_MS are tuning
+   parameters of the implementation and are taken from the source. *)
+Definition M_RESERVED_SHORT : Z := 24.        (* 0x18 *)
+Definition M_RESERVED_LONG : Z := 12.         (* 0x0C *)
+Definition M_PROTOCOL_VIOLATION : Z := 10.    (* 0x0A *)
+Definition M_SPIN_BIT : Z := 32.              (* 0x20 *)
+Definition reserved_mask (e : epoch) : Z := if epoch_eqb e EOneRtt then M_RESERVED_SHORT else M_RESERVED_LONG.
+Definition reserved_set (r : rpacket) : bool := negb (Z.land (r_first r) (reserved_mask (r_epoch r)) =? 0).
+
+(* "record packet as received", the body of `if not space.discarded:` *)
+Definition record_packet (s : space) (pn now ack_delay : Z) (elic : bool) : space :=
+  let newl := pn >? sp_largest s in
+  let q := add pn (pn + 1) (sp_ackq s) in
+  let a1 := match sp_ack_at s with None => if elic then Some (now + ack_delay) else None | Some t => Some t end in
+  let a2 := match a1 with Some t => if Zlen q >=? MAX_ACK_RANGES then Some (Z.min t now) else Some t | None => None end in
+  mkSp (sp_expected s) (if newl then pn else sp_largest s) (if newl then now else sp_largest_time s) q a2 (sp_discarded s).
+
 Section Frames.
-  (* _payload_received: (is_ack_eliciting, error code of a QuicConnectionError if one is raised) *)
-  Variable frames : list Z -> bool * option Z.
+  (* _payload_received *)
+  Variable frames : list Z -> fres.
   Variable idle_timeout ack_delay : Z.
 
-  Definition recv_packet (c : conn) (r : rpacket) (now : Z) : conn :=
+  (* an opened packet whose reserved bits are clear *)
+  Definition process (c1 : conn) (r : rpacket) (now : Z) : conn :=
     let e := r_epoch r in
-    match decrypt c r with
-    | KeyUnavailable =>
-        if c_is_client c && (epoch_eqb e EHandshake || epoch_eqb e EOneRtt) && negb (c_crypto_retransmitted c)
-        then mkC (c_is_client c) (c_keys_initial c) (c_keys_handshake c) (c_keys_onertt c) (c_pair c) (c_sp_initial c) (c_sp_handshake c)
-               (c_sp_onertt c) true (c_rescheduled c + 1) (c_connected c) (c_close c) (c_close_at c) (c_delivered c)
-        else c
-    | CryptoErr => c
-    | Opened p' =>
-        (* CryptoPair.decrypt_packet has already applied a remote key update *)
-        let c1 := mkC (c_is_client c) (c_keys_initial c) (c_keys_handshake c) (c_keys_onertt c) p' (c_sp_initial c) (c_sp_handshake c)
-                    (c_sp_onertt c) (c_crypto_retransmitted c) (c_rescheduled c) (c_connected c) (c_close c) (c_close_at c) (c_delivered c) in
-        let reserved_mask := if epoch_eqb e EOneRtt then 24 else 12 in
-        if negb (Z.land (r_first r) reserved_mask =? 0) then
-          mkC (c_is_client c1) (c_keys_initial c1) (c_keys_handshake c1) (c_keys_onertt c1) (c_pair c1) (c_sp_initial c1) (c_sp_handshake c1)
-            (c_sp_onertt c1) (c_crypto_retransmitted c1) (c_rescheduled c1) (c_connected c1) (Some PROTOCOL_VIOLATION) (c_close_at c1) (c_delivered c1)
-        else
-          let sp := space_of c1 e in
-          let pn := r_pn r in
-          (* if packet_number > space.expected_packet_number: space.expected_packet_number = packet_number + 1 *)
-          let sp1 := mkSp (if pn >? sp_expected sp then pn + 1 else sp_expected sp) (sp_largest sp) (sp_largest_time sp) (sp_ackq sp)
-                       (sp_ack_at sp) (sp_discarded sp) in
-          let '(eliciting, err) := frames (r_payload r) in
-          let c2 := set_space c1 e sp1 in
-          let c3 := mkC (c_is_client c2) (c_keys_initial c2) (c_keys_handshake c2) (c_keys_onertt c2) (c_pair c2) (c_sp_initial c2)
-                      (c_sp_handshake c2) (c_sp_onertt c2) (c_crypto_retransmitted c2) (c_rescheduled c2) true
-                      (match err with Some k => Some k | None => c_close c2 end) (c_close_at c2) (c_delivered c2 ++ [r_payload r]) in
-          match c_close c3 with
-          | Some _ => c3
-          | None =>
-              let sp2 := if sp_discarded sp1 then sp1 else
-                mkSp (sp_expected sp1) (if pn >? sp_largest sp1 then pn else sp_largest sp1)
-                  (if pn >? sp_largest sp1 then now else sp_largest_time sp1) (sp_ackq sp1 ++ [pn])
-                  (match sp_ack_at sp1 with None => if eliciting then Some (now + ack_delay) else None | Some t => Some t end)
-                  (sp_discarded sp1) in
-              let c4 := set_space c3 e sp2 in
-              mkC (c_is_client c4) (c_keys_initial c4) (c_keys_handshake c4) (c_keys_onertt c4) (c_pair c4) (c_sp_initial c4)
-                (c_sp_handshake c4) (c_sp_onertt c4) (c_crypto_retransmitted c4) (c_rescheduled c4) (c_connected c4) (c_close c4)
-                (now + idle_timeout) (c_delivered c4)
-          end
+    let pn := r_pn r in
+    let sp := space_of c1 e in
+    let c2 := set_space c1 e (mkSp (if pn >? sp_expected sp then pn + 1 else sp_expected sp) (sp_largest sp) (sp_largest_time sp)
+                                (sp_ackq sp) (sp_ack_at sp) (sp_discarded sp)) in
+    let c3 := if negb (c_is_client c2) && epoch_eqb e EHandshake then discard_epoch c2 EInitial else c2 in
+    let c4 := if c_peer_latched c3 then c3 else latch_peer c3 (r_scid r) in
+    let c5 := if c_connected c4 then c4 else set_connected c4 (r_scid r) in
+    let c6 := if epoch_eqb e EOneRtt && (pn >? c_spin_highest c5)
+              then set_spin c5 (let b := negb (Z.land (r_first r) M_SPIN_BIT =? 0) in if c_is_client c5 then negb b else b) pn
+              else c5 in
+    let fr := frames (r_payload r) in
+    let c7 := fold_left apply_fx (f_fx fr) (deliver c6 (r_payload r)) in
+    let c8 := match f_err fr with Some k => set_close c7 k | None => c7 end in
+    match c_close c8 with
+    | Some _ => c8
+    | None =>
+        let c9 := set_close_at c8 (now + idle_timeout) in
+        let s := space_of c9 e in
+        if sp_discarded s then c9 else set_space c9 e (record_packet s pn now ack_delay (f_elic fr))
+    end.
+
+  Definition recv_packet (c : conn) (r : rpacket) (now : Z) : conn :=
+    match c_close c with
+    | Some _ => c
+    | None =>
+        match decrypt c r with
+        | KeyUnavailable =>
+            if c_is_client c && (epoch_eqb (r_epoch r) EHandshake || epoch_eqb (r_epoch r) EOneRtt) && negb (c_crypto_retransmitted c)
+            then set_retransmitted c else c
+        | CryptoErr => c
+        | Opened p' =>
+            (* CryptoPair.decrypt_packet has already applied a remote key update *)
+            let c1 := set_pair c p' in
+            if reserved_set r then set_close c1 M_PROTOCOL_VIOLATION else process c1 r now
+        end
+    end.
+
+  (* what the qlog shows: 0 nothing (gate) / 1 packet_dropped key_unavailable / 2 packet_dropped payload_decrypt_error /
+     3 packet_received, closed for the reserved bits / 4 packet_received, processed / 5 packet_received, closed by the payload *)
+  Definition recv_verdict (c : conn) (r : rpacket) (now : Z) : Z :=
+    match c_close c with
+    | Some _ => 0
+    | None =>
+        match decrypt c r with
+        | KeyUnavailable => 1
+        | CryptoErr => 2
+        | Opened _ => if reserved_set r then 3 else match c_close (recv_packet c r now) with Some _ => 5 | None => 4 end
+        end
+    end.
+
+  (* a sequence of received packets with their arrival times *)
+  Fixpoint recv_all (c : conn) (rs : list (rpacket * Z)) : conn :=
+    match rs with [] => c | (r, now) :: t => recv_all (recv_packet c r now) t end.
+
+  (* the same sequence without the packets that are not authentic and for whose epoch the receiver has keys WHEN THEY ARRIVE *)
+  Fixpoint drop_unauth (c : conn) (rs : list (rpacket * Z)) : list (rpacket * Z) :=
+    match rs with
+    | [] => []
+    | (r, now) :: t =>
+        if has_keys c (r_epoch r) && match q_auth (r_q r) with None => true | Some _ => false end
+        then drop_unauth c t
+        else (r, now) :: drop_unauth (recv_packet c r now) t
     end.
 End Frames.
+
+(* the order in which recv_packet / process execute the events of gen/C02Recv.v RECV_SKELETON (codes: tools/gen/c02_recv.py):
+   101-103 [decrypt]'s choice of keys and [space_of]; 104 byte offsets (no model state); 105 [decrypt] and the two drop branches
+   of [recv_packet]; 106-107 [reserved_mask] / [reserved_set] -> [set_close]; then [process]: 108 c2, 109 c3, 110 c4, 111 c5,
+   112 c6, 113 (no state), 114 c7 / c8, 115 `match c_close c8`, 116 c9, 180 / 181 not modelled, 117 [record_packet] *)
+Definition modelled_skeleton : list Z :=
+  [101; 102; 103; 104; 105; 106; 107; 108; 109; 110; 111; 112; 113; 114; 115; 116; 180; 181; 117].
+
+(* ---------- executable interface --------------------------------------------------------------
+   tokens:  <initial state> then ops
+     state:  is_client keysI keysZ keysH keysO  rgen rphase sgen sphase req  <space I> <space H> <space O>
+             retransmitted connected close(-1 | code) close_at latched peer_cid(id) remote_iscid(id) spin spin_highest
+     space:  expected largest largest_time ack_at(-1000000000 = None) discarded n s1 e1 .. sn en      (ack_queue ranges)
+     op 1 (packet):  1 epoch(0 I,1 Z,2 H,3 O) auth(0|1) gen phase first pn pnlen scid(id) elic err(-1|code) fx(bit 1 discard
+                     handshake, 2 handshake keys, 4 1-RTT keys) idle now
+                     -> verdict, state, number of payloads delivered, reschedule_data calls
+     op 3: the same tokens as op 1, for a packet followed by another one in the SAME datagram  -> verdict only
+     op 2 (a Handshake packet was sent):  2  -> keysI discardedI keysH discardedH
+   connection IDs are small numbers chosen by the harness ([id] as a one-element list); times are milliseconds. *)
+Definition NONE_T : Z := -1000000000.
+Definition out_opt (o : option Z) : Z := match o with Some t => t | None => NONE_T end.
+Definition out_space (s : space) : list Z :=
+  [sp_expected s; sp_largest s; sp_largest_time s; out_opt (sp_ack_at s); b2z (sp_discarded s)] ++ dump (sp_ackq s).
+Definition out_cid (l : list Z) : Z := match l with [x] => x | _ => -1 end.
+Definition out_conn (c : conn) : list Z :=
+  [b2z (c_is_client c); b2z (c_keys_initial c); b2z (c_keys_zerortt c); b2z (c_keys_handshake c); b2z (c_keys_onertt c)]
+  ++ (if c_keys_onertt c then out_pair (c_pair c) else [0; 0; 0; 0; 0])
+  ++ out_space (c_sp_initial c) ++ out_space (c_sp_handshake c) ++ out_space (c_sp_onertt c)
+  ++ [b2z (c_crypto_retransmitted c); b2z (c_connected c); match c_close c with Some k => k | None => -1 end; c_close_at c;
+      b2z (c_peer_latched c); out_cid (c_peer_cid c); out_cid (c_remote_iscid c); b2z (c_spin c); c_spin_highest c].
+
+Fixpoint read_ranges (n : nat) (toks : list Z) : rs * list Z :=
+  match n, toks with
+  | S n', a :: b :: t => let '(l, rest) := read_ranges n' t in ((a, b) :: l, rest)
+  | _, _ => ([], toks)
+  end.
+Definition read_space (toks : list Z) : option (space * list Z) :=
+  match toks with
+  | ex :: la :: lt :: aa :: di :: n :: t =>
+      let '(q, rest) := read_ranges (Z.to_nat n) t in
+      Some (mkSp ex la lt q (if aa =? NONE_T then None else Some aa) (z2b di), rest)
+  | _ => None
+  end.
+Definition read_conn (toks : list Z) : option (conn * list Z) :=
+  match toks with
+  | ic :: ki :: kz :: kh :: ko :: rg :: rp :: sg :: sp :: rq :: t =>
+      match read_space t with Some (s1, t1) =>
+      match read_space t1 with Some (s2, t2) =>
+      match read_space t2 with Some (s3, rt :: cn :: cl :: ca :: pl :: pc :: ri :: spn :: sh :: t3) =>
+        Some (mkC (z2b ic) (z2b ki) (z2b kz) (z2b kh) (z2b ko) (mkP (mkK rg rp) (mkK sg sp) (z2b rq)) s1 s2 s3 (z2b rt) 0 (z2b cn)
+                (if cl <? 0 then None else Some cl) ca [] (z2b pl) [pc] [ri] (z2b spn) sh, t3)
+      | _ => None end | None => None end | None => None end
+  | _ => None
+  end.
+
+Definition epoch_of (z : Z) : epoch := if z =? 0 then EInitial else if z =? 1 then EZeroRtt else if z =? 2 then EHandshake else EOneRtt.
+Definition fx_of (z : Z) : list pfx :=
+  (if Z.testbit z 1 then [FxKeysHandshake] else []) ++ (if Z.testbit z 2 then [FxKeysOneRtt] else [])
+  ++ (if Z.testbit z 0 then [FxDiscardHandshake] else []).
+
+(* one packet op: (state after, verdict) *)
+Definition exec_packet (c : conn) (ep au g ph first pn pnl scid el er fx idle now : Z) : conn * Z :=
+  let e := epoch_of ep in
+  let r := mkR e (mkQ (if au =? 0 then None else Some g) ph (negb (epoch_eqb e EOneRtt))) first pn pnl [scid] [] in
+  let fr := fun _ : list Z => mkF (z2b el) (if er <? 0 then None else Some er) (fx_of fx) in
+  (recv_packet fr idle ACK_DELAY_MS c r now, recv_verdict fr idle ACK_DELAY_MS c r now).
+
+Fixpoint exec_packetrecv_go (fuel : nat) (c : conn) (toks : list Z) : list Z :=
+  match fuel with
+  | O => []
+  | S f =>
+      match toks with
+      | 2 :: t =>
+          let c' := on_handshake_sent c in
+          [b2z (c_keys_initial c'); b2z (sp_discarded (c_sp_initial c')); b2z (c_keys_handshake c'); b2z (sp_discarded (c_sp_handshake c'))]
+            ++ exec_packetrecv_go f c' t
+      | op :: ep :: au :: g :: ph :: first :: pn :: pnl :: scid :: el :: er :: fx :: idle :: now :: t =>
+          let '(c', v) := exec_packet c ep au g ph first pn pnl scid el er fx idle now in
+          if op =? 1 then v :: out_conn c' ++ [Zlen (c_delivered c'); c_rescheduled c'] ++ exec_packetrecv_go f c' t
+          else if op =? 3 then v :: exec_packetrecv_go f c' t          (* a packet that is not the last one of its datagram *)
+          else []
+      | _ => []
+      end
+  end.
+
+(* EXTRACT: exec_packetrecv *)
+Definition exec_packetrecv (toks : list Z) : list Z :=
+  match read_conn toks with
+  | Some (c, t) => exec_packetrecv_go (length t) c t
+  | None => [-99]
+  end.
